@@ -20,7 +20,7 @@ pub use state::TaskState;
 pub(crate) use queue::{Queue as VerifQueue, Signal as VerifSignal};
 
 #[allow(unused_imports)]
-pub use tree::{Node, NodeContent, NodeData, NodeKind, NodeTree};
+pub use tree::{Node, NodeContent, NodeData, NodeKind, NodeTree, StoredNode};
 
 pub trait ActTask: Clone + Send {
     fn init(&self, _ctx: &Context) -> Result<()> {
